@@ -699,6 +699,7 @@ func (vc *VC) execCall(fr *Frame, st *State, reach string, instr ssa.Instruction
 		n := fr.ordinal[instr]
 		vc.safety(fr, "nil", reach, "(not (= (i_typ "+vc.valTerm(recv)+") 0))", "method call on nil interface at "+pos)
 		vc.ghostPoint(fr, st, reach, "before", "call", n, common.Method.Name())
+		fr.callPre = st.clone()
 		var res Val
 		if impls := vc.implsOf(common.Value.Type(), common.Method.Name()); ms == nil && len(impls) > 0 {
 			res = vc.applyDispatch(fr, st, reach, impls, recv, args, instr, resT, key, n)
@@ -1472,7 +1473,8 @@ func (vc *VC) specHeaps(spec *FuncSpec, callee *ssa.Function, common *ssa.CallCo
 		vc.nfresh = saveFresh
 		vc.specErrors = vc.specErrors[:saveErr]
 		if r := recover(); r != nil {
-			if _, ok := r.(specErr); ok {
+			if se, ok := r.(specErr); ok {
+				vc.notes = append(vc.notes, "frame of a callee could not be typed ("+se.msg+"): all heaps are treated as modified")
 				out = append(out, "*")
 				return
 			}
@@ -1512,6 +1514,11 @@ func (vc *VC) specHeaps(spec *FuncSpec, callee *ssa.Function, common *ssa.CallCo
 		env.cloFn = callee
 		d := dummy(callee.Type())
 		env.cloVal = &d
+	}
+	for ai, pn := range spec.AliasParams {
+		if ai < len(common.Args) {
+			names[pn] = dummy(common.Args[ai].Type())
+		}
 	}
 	for _, l := range spec.Lets {
 		names[l.Name] = env.trVal(l.E)
